@@ -112,6 +112,11 @@ def object_level(j, version, key):
     elif version == "2.0" and j.get("type") != "bundle":
         out.append(("spec_version-added", dict(j, spec_version="2.0")))
     out.append(("type-other", dict(j, type="tool" if j.get("type") != "tool" else "identity")))
+    if version == "2.0" and "extensions" not in model.spec(version).classes[key]["properties"]:
+        # STIX 2.0 has no extension mechanism: an 'extensions' member on an SDO/SRO is just an unknown property, whatever it claims
+        EXT = "extension-definition--" + V4
+        out.append(("toplevel-extension-claim-without-extension-mechanism", dict(j, foo_unknown=1, extensions={EXT: {"extension_type": "toplevel-property-extension"}})))
+        out.append(("property-extension-claim-without-extension-mechanism", dict(j, extensions={EXT: {"extension_type": "property-extension", "a": 1}})))
     t = key.split(":")[1]
 
     def wo(*names):
